@@ -148,7 +148,7 @@ func regStatic(v interface{}) {
 func init() {
 	for _, v := range []interface{}{MyI16(0), MyI32(0), MyI64(0), MyU8(0), MyU32(0), MyUint(0), MyInt(0), MyInt8(0), MyU16(0), MyU64(0), MyStr(""), MyBool(false),
 		MyF64(0), MyF32(0), MyBytes(nil), MyTime{}, MyStrs(nil), MyInts(nil), MyMap(nil),
-		Rec{}, MutA{}, MutB{}, RecMap{}, Inner{}, Outer{}, Inner2{}, BadRec{}, GoodViaBad{}, BadHolder{}, BadRec2{}, ProtoMapHolder{}, PSelf(nil), SSelf(nil), MSelf(nil), PSelfA(nil), PSelfB(nil), SSelfHolder{}, BadKindRec{}, GoodViaBadKind{}, BadKindHolder{}} {
+		Rec{}, MutA{}, MutB{}, RecMap{}, Inner{}, Outer{}, Inner2{}, BadRec{}, GoodViaBad{}, BadHolder{}, BadRec2{}, ProtoMapHolder{}, PSelf(nil), SSelf(nil), MSelf(nil), PSelfA(nil), PSelfB(nil), SSelfHolder{}, BadKindRec{}, GoodViaBadKind{}, BadKindHolder{}, PoolMaps{}} {
 		regStatic(v)
 	}
 }
